@@ -23,6 +23,7 @@ CONSTANTS Mode,        \* "blocker": add_filter/optimize available; "engine": se
           Allocs,      \* "any": every placement of re-allocated rules; "first": lowest free addresses
           InitSet,     \* "full" | "notagblock" (no tagged blocking rule in the list)
           Ops,         \* "all" | "tags" (only tag assignment, discard and query: deeper histories)
+                       \* | "res" (resources, serialize/deserialize) | "radd" (resources and add_filter)
                        \* | "res" (resource loading, save/load, discard and query; InitSet "res")
           Export
 
@@ -75,8 +76,8 @@ Pool == <<
   [W("/p") EXCEPT !.mkind = "removeparam", !.mval = "q"],
   [W("/p") EXCEPT !.mkind = "removeparam", !.mval = "r"],
   \* 32 (addable, InitSet "res"): a redirect EXCEPTION added one at a time must cancel the redirects to its resource
-  \* (rule 18 redirects /eee to r1 with priority 1, rule 19 to al1)
-  [W("/eee") EXCEPT !.exc = TRUE, !.mkind = "redirect-rule", !.mval = "r1"],
+  \* (rule 16 is the only redirect for /ccc)
+  [W("/ccc") EXCEPT !.exc = TRUE, !.mkind = "redirect-rule", !.mval = "r2"],
   \* 33 (addable): a TAGGED csp rule added one at a time is a csp rule (not a blocking rule) while its tag is on
   [W("x.com^") EXCEPT !.left = "dpipe", !.mkind = "csp", !.mval = "d5", !.tag = "t1"]
 >>
@@ -218,11 +219,11 @@ Query ==
 \* use_resources replaces the store; add_resource appends (and reports whether the resource was accepted).
 \* Neither touches rules, tags or the regex cache.
 UseResources(sq) ==
-  /\ Ops = "res" /\ Len(hist) < Depth - 1
+  /\ Ops \in {"res", "radd"} /\ Len(hist) < Depth - 1
   /\ store' = sq /\ UNCHANGED <<rules, tags, blob, heap, cache>>
   /\ Op([op |-> "useres", res |-> [i \in DOMAIN sq |-> ResPool[sq[i]].name], now |-> tags])
 AddResource(i) ==
-  /\ Ops = "res" /\ Len(hist) < Depth - 1 /\ Len(store) < 4
+  /\ Ops \in {"res", "radd"} /\ Len(hist) < Depth - 1 /\ Len(store) < 4
   /\ store' = Append(store, i) /\ UNCHANGED <<rules, tags, blob, heap, cache>>
   /\ Op([op |-> "addres", res |-> ResPool[i].name, now |-> tags,
          ok |-> (ResPool[i] \in EffectiveStore(ResSeq(Append(store, i))) /\ ResPool[i] \notin StoreNow)])
@@ -230,11 +231,11 @@ AddResource(i) ==
 Init == /\ store = <<>> /\ rules = InitRules /\ tags = {} /\ blob = <<>> /\ hist = <<>>
         /\ heap = [i \in {} |-> 0] /\ cache = [a \in Addr |-> NONE]
 
-Next == \/ (Ops # "res" /\ \E S \in TagSets : UseTags(S))
+Next == \/ (Ops \notin {"res", "radd"} /\ \E S \in TagSets : UseTags(S))
         \/ (\E sq \in UseChoices : UseResources(sq)) \/ (\E i \in DOMAIN ResPool : AddResource(i))
         \/ (Ops = "res" /\ (Serialize \/ Deserialize))
         \/ (Ops = "all" /\ \E t \in {"t1", "t2"} : EnableTags({t}) \/ DisableTags({t}))
-        \/ (Ops = "all" /\ \E i \in Addable \cup ReAddable : AddFilter(i))
+        \/ (Ops \in {"all", "radd"} /\ \E i \in Addable \cup ReAddable : AddFilter(i))
         \/ (Ops = "all" /\ (Optimize \/ Serialize \/ Deserialize))
         \/ Discard \/ Query
 
